@@ -520,6 +520,33 @@ pub proof fn lemma_c17_step(s: Raw, t: Raw, sender: Seq<char>, b: &BlockInfo, ms
     }
 }
 
+/// one successful execute call of a history (failed calls change nothing and relay nothing, A1)
+pub ghost struct Call { pub sender: Seq<char>, pub block: BlockInfo, pub msg: ExecuteMsg<Empty> }
+pub open spec fn call_at(tr: Seq<Raw>, cs: Seq<Call>, k: int) -> bool {
+    inv_wf(tr[k]) && admin_list(tr[k]) is Some && step_msg(tr[k], tr[k + 1], cs[k].sender, &cs[k].block, cs[k].msg)
+}
+/// what subkey `a` relayed / what admins granted to `a`, in denomination `d`, over the first n calls
+pub open spec fn relayed_upto(tr: Seq<Raw>, cs: Seq<Call>, a: Seq<char>, d: Seq<char>, n: int) -> nat decreases n {
+    if n <= 0 { 0 } else { relayed_upto(tr, cs, a, d, n - 1) + relayed_by(cs[n - 1].sender, listed(admin_list(tr[n - 1])->Some_0.admins@, cs[n - 1].sender), cs[n - 1].msg, a, d) }
+}
+pub open spec fn granted_upto(cs: Seq<Call>, a: Seq<char>, d: Seq<char>, n: int) -> nat decreases n {
+    if n <= 0 { 0 } else { granted_upto(cs, a, d, n - 1) + granted_by(cs[n - 1].sender, cs[n - 1].msg, a, d) }
+}
+// serves: C08
+/// over every history of successful calls: what a subkey has relayed so far plus what is left of its allowance never exceeds what
+/// it started with plus everything admins granted to it, per denomination
+pub proof fn lemma_c08_history(tr: Seq<Raw>, cs: Seq<Call>, a: Seq<char>, d: Seq<char>, n: int)
+    requires tr.len() == cs.len() + 1, 0 <= n <= cs.len(), forall|k: int| 0 <= k < cs.len() ==> #[trigger] call_at(tr, cs, k)
+    ensures amt_of(allow_of(tr[n], a), d) + relayed_upto(tr, cs, a, d, n) <= amt_of(allow_of(tr[0], a), d) + granted_upto(cs, a, d, n)
+    decreases n
+{
+    if n > 0 {
+        lemma_c08_history(tr, cs, a, d, n - 1);
+        assert(call_at(tr, cs, n - 1));
+        lemma_c08_step(tr[n - 1], tr[n], cs[n - 1].sender, &cs[n - 1].block, cs[n - 1].msg, a, d);
+    }
+}
+
 // ===================================================================== C20: listings of cw1-subkeys
 @struct contracts/cw1-subkeys/src/msg.rs AllAllowancesResponse
 @struct contracts/cw1-subkeys/src/msg.rs AllowanceInfo
